@@ -96,6 +96,7 @@ class ArgumentGenerator:
                 final_type,
                 is_required,
                 used_custom_scalar,
+                graphql_type=str(arg_value.type),
             )
 
         method_arguments = self._assemble_method_arguments(
@@ -128,9 +129,13 @@ class ArgumentGenerator:
         final_type: Union[GraphQLObjectType, GraphQLInterfaceType, GraphQLUnionType],
         is_required: bool,
         used_custom_scalar: Optional[str],
+        graphql_type: Optional[str] = None,
     ) -> None:
         """Accumulates return arguments."""
         constant_value = f"{final_type.name}!" if is_required else final_type.name
+        if graphql_type:
+            # keep list and non-null wrappers: "[ID!]!" must not be declared as "ID!"
+            constant_value = graphql_type
         return_arg_dict_value = self._generate_return_arg_value(
             name, used_custom_scalar
         )
